@@ -5,30 +5,32 @@
   what `Spec.applies` allows).
 -/
 import VM.Impl.Post
+import VM.Proofs.PostProof
+import VM.Properties.C01
 namespace VM.C18
-open VM Post Impl
+open VM Post Impl Spec
 
 /-- members that were present stay, in place, under their own names -/
-theorem applyMembers_keys (es : List Entry) (pos : Pos) (kvs : List (String × JVal)) :
+theorem applyMembers_keys (es : List Entry) (pos : Post.Pos) (kvs : List (String × JVal)) :
     (applyMembers es pos kvs).map Prod.fst = kvs.map Prod.fst := by
   induction kvs with
   | nil => rfl
   | cons kv rest ih => obtain ⟨k, x⟩ := kv; simp [applyMembers, ih]
 
 /-- a present scalar member keeps its value -/
-theorem applyDefaults_scalar (es : List Entry) (pos : Pos) (v : JVal)
+theorem applyDefaults_scalar (es : List Entry) (pos : Post.Pos) (v : JVal)
     (h : match v with | .arr _ | .obj _ => False | _ => True) : applyDefaults es pos v = v := by
   cases v <;> simp_all [applyDefaults]
 
 /-- the shape of a defaulted object: the old members (each defaulted in turn), then the added ones -/
-theorem applyDefaults_obj (es : List Entry) (pos : Pos) (kvs : List (String × JVal)) :
+theorem applyDefaults_obj (es : List Entry) (pos : Post.Pos) (kvs : List (String × JVal)) :
     applyDefaults es pos (.obj kvs) =
       .obj (applyMembers es pos kvs ++ (entryFields es pos).filterMap fun f =>
         if ahas f kvs then none else (firstDefault es pos f).map fun d => (f, d)) := rfl
 
 /-- every added member was absent, was reached by a schema, and holds a default declared by one
     of the schemas that reached it — nothing else appears -/
-theorem added_members_justified (es : List Entry) (pos : Pos) (kvs : List (String × JVal)) (f : String) (d : JVal)
+theorem added_members_justified (es : List Entry) (pos : Post.Pos) (kvs : List (String × JVal)) (f : String) (d : JVal)
     (h : (f, d) ∈ (entryFields es pos).filterMap fun f =>
         if ahas f kvs then none else (firstDefault es pos f).map fun d => (f, d)) :
     ahas f kvs = false ∧ ∃ e ∈ es, e.pos = pos ∧ e.field = f ∧ e.dflt = some d ∧ hasDefault e.dflt = true := by
@@ -51,7 +53,7 @@ theorem added_members_justified (es : List Entry) (pos : Pos) (kvs : List (Strin
       exact ⟨e, hmem, hp.1.1, hp.1.2, hd, hp.2⟩
 
 /-- every absent member that a schema reached with a default does get filled -/
-theorem absent_with_default_filled (es : List Entry) (pos : Pos) (kvs : List (String × JVal)) (e : Entry)
+theorem absent_with_default_filled (es : List Entry) (pos : Post.Pos) (kvs : List (String × JVal)) (e : Entry)
     (he : e ∈ es) (hp : e.pos = pos) (hd : hasDefault e.dflt = true) (ha : ahas e.field kvs = false) :
     ∃ d, (e.field, d) ∈ (entryFields es pos).filterMap fun f =>
         if ahas f kvs then none else (firstDefault es pos f).map fun d => (f, d) := by
@@ -73,7 +75,62 @@ theorem absent_with_default_filled (es : List Entry) (pos : Pos) (kvs : List (St
   refine ⟨d, List.mem_filterMap.mpr ⟨e.field, hfield, ?_⟩⟩
   simp [ha, firstDefault, he', hd']
 
-/-! non-vacuity -/
+/-- **C18 against the specification of applicable schemas, soundness**: every member added to the object at `pos` was
+    absent and receives a default that an applicable schema declares for it. -/
+theorem C18_added_are_applicable_defaults (cfg : Cfg) (O : Oracles)
+    (hleak : cfg.leaksImportant = false) (hbound : cfg.addlItemsBound = false)
+    (hO : cfg.floatTolerance = true → OExact O)
+    (defs : String → Option Schema) (hdefs : DefsWf cfg defs) (n : Nat) (s : Schema)
+    (hs : wf cfg (fun name => (defs name).isSome) s = true) (v : JVal) (hv : adm cfg v = true)
+    (pos : Post.Pos) (kvs : List (String × JVal)) (f : String) (d : JVal)
+    (h : (f, d) ∈ (entryFields (entriesF cfg O defs n s [] v) pos).filterMap fun f =>
+        if ahas f kvs then none else (firstDefault (entriesF cfg O defs n s [] v) pos f).map fun d => (f, d)) :
+    ahas f kvs = false ∧ ∃ a ∈ appliesF O defs n s [] v, a.pos = pos ∧ a.field = f ∧ a.dflt = some d
+      ∧ Spec.declaresDefault a.dflt = true := by
+  obtain ⟨h1, e, he, h2, h3, h4, h5⟩ := added_members_justified _ pos kvs f d h
+  have hsim := PostProof.entriesF_sim cfg O hleak hbound hO defs hdefs n s hs [] v hv
+  exact ⟨h1, e, (hsim e).mp he, h2, h3, h4, by rw [← PostProof.hasDefault_eq]; exact h5⟩
+
+/-- **completeness**: every absent member for which an applicable schema declares a default is filled -/
+theorem C18_applicable_defaults_are_added (cfg : Cfg) (O : Oracles)
+    (hleak : cfg.leaksImportant = false) (hbound : cfg.addlItemsBound = false)
+    (hO : cfg.floatTolerance = true → OExact O)
+    (defs : String → Option Schema) (hdefs : DefsWf cfg defs) (n : Nat) (s : Schema)
+    (hs : wf cfg (fun name => (defs name).isSome) s = true) (v : JVal) (hv : adm cfg v = true)
+    (pos : Post.Pos) (kvs : List (String × JVal)) (a : Spec.Applies)
+    (ha : a ∈ appliesF O defs n s [] v) (hp : a.pos = pos) (hd : Spec.declaresDefault a.dflt = true)
+    (habs : ahas a.field kvs = false) :
+    ∃ d, (a.field, d) ∈ (entryFields (entriesF cfg O defs n s [] v) pos).filterMap fun f =>
+        if ahas f kvs then none else (firstDefault (entriesF cfg O defs n s [] v) pos f).map fun d => (f, d) := by
+  have hsim := PostProof.entriesF_sim cfg O hleak hbound hO defs hdefs n s hs [] v hv
+  exact absent_with_default_filled _ pos kvs a ((hsim a).mpr ha) hp (by rw [PostProof.hasDefault_eq]; exact hd) habs
+
+/-- the repaired configuration: every instance (both directions) -/
+theorem C18_repaired (O : Oracles) (defs : String → Option Schema) (hdefs : DefsWf Cfg.repaired defs) (n : Nat) (s : Schema)
+    (hs : wf Cfg.repaired (fun name => (defs name).isSome) s = true) (v : JVal)
+    (pos : Post.Pos) (kvs : List (String × JVal)) :
+    (∀ f d, (f, d) ∈ ((entryFields (entriesF Cfg.repaired O defs n s [] v) pos).filterMap fun f =>
+        if ahas f kvs then none else (firstDefault (entriesF Cfg.repaired O defs n s [] v) pos f).map fun d => (f, d)) →
+      ahas f kvs = false ∧ ∃ a ∈ appliesF O defs n s [] v, a.pos = pos ∧ a.field = f ∧ a.dflt = some d
+        ∧ Spec.declaresDefault a.dflt = true)
+    ∧ (∀ a ∈ appliesF O defs n s [] v, a.pos = pos → Spec.declaresDefault a.dflt = true → ahas a.field kvs = false →
+      ∃ d, (a.field, d) ∈ (entryFields (entriesF Cfg.repaired O defs n s [] v) pos).filterMap fun f =>
+        if ahas f kvs then none else (firstDefault (entriesF Cfg.repaired O defs n s [] v) pos f).map fun d => (f, d)) :=
+  ⟨fun f d h => C18_added_are_applicable_defaults Cfg.repaired O rfl rfl (fun h => by cases h) defs hdefs n s hs v
+      (C01.adm_repaired v) pos kvs f d h,
+   fun a ha hp hd habs => C18_applicable_defaults_are_added Cfg.repaired O rfl rfl (fun h => by cases h) defs hdefs n s hs v
+      (C01.adm_repaired v) pos kvs a ha hp hd habs⟩
+
+/-! non-vacuity: a schema with a defaulted property under an anyOf alternative meets the hypotheses -/
+def sPost : Schema :=
+  .mk { types := ["object"] } none [] none
+    [("a", .mk { types := ["integer"], default := some (.num 1) } none [] none [] [] none [] [] [] [] none)]
+    [] none [] []
+    [.mk {} none [] none [("b", .mk { default := some (.str "x") } none [] none [] [] none [] [] [] [] none)] [] none [] [] [] [] none]
+    [] none
+example : wf Cfg.repaired (fun _ => false) sPost = true := by decide
+example : DefsWf Cfg.repaired (fun _ => none) := by intro _ _ h; cases h
+
 example : jeq (applyDefaults [{ pos := [], field := "b", dflt := some (.num 7) }] [] (.obj [("a", .num 1)]))
     (.obj [("a", .num 1), ("b", .num 7)]) = true := by decide
 
